@@ -81,6 +81,13 @@ def _build(with_listener):
     o.set_handler(CallbackHandler(_handler("other")))
     s = c.create_sub_command("sub")
     s.set_handler(CallbackHandler(_handler("work sub")))
+    w2 = cfg.create_command("w2")            # registered later, with aliases that are the NAMES of other commands: those names still select their own commands
+    w2.add_alias("work")
+    w2.add_alias("other")
+    w2.set_handler(CallbackHandler(_handler("w2")))
+    s2 = c.create_sub_command("s2")
+    s2.add_alias("sub")
+    s2.set_handler(CallbackHandler(_handler("work s2")))
     return ConsoleApplication(cfg)
 
 
@@ -266,14 +273,38 @@ def late_listener(kind: int, prio: int) -> bool:
     return untraced(_late_listener_case, conc_int(kind, 1, 3), conc_int(prio, -1, 1))
 
 
+def listener_status(r: int, vi: int) -> bool:
+    """
+    pre: 0 <= vi <= 3
+    post: _
+    """
+    # a pre-handle listener that handles the event with ANY integer status: the run still answers with a status in 0..255 and runs no handler
+    STATE["result"], STATE["exc"], STATE["listener"], STATE["lstatus"] = 0, None, 2, r
+    vi = 0 if vi == 0 else (1 if vi == 1 else (2 if vi == 2 else 3))
+    status, out, err = _run(APP_L, ["work"] + VERB[vi])
+    return type(status) is int and 0 <= status <= 255 and (status == 0) == (r == 0) and STATE["calls"] == []
+
+
+def listener_status_other(i: int) -> bool:
+    """
+    pre: 0 <= i < 6
+    post: _
+    """
+    from vf.sym import conc_int
+    i = conc_int(i, 0, 5)
+    STATE["result"], STATE["exc"], STATE["listener"], STATE["lstatus"] = 0, None, 2, [None, True, False, 300, -1, 255][i]
+    status, out, err = untraced(_run, APP_L, ["work"])
+    return type(status) is int and 0 <= status <= 255 and (status == 0) == (i in (0, 2)) and STATE["calls"] == []
+
+
 def no_other_handler(which: int, r: int) -> bool:
     """
-    pre: 0 <= which <= 2
+    pre: 0 <= which <= 3
     pre: -2 <= r <= 2
     post: _
     """
     STATE["result"], STATE["exc"], STATE["listener"] = r, None, 0
-    tokens = [["work"], ["other"], ["work", "sub"]][0 if which == 0 else (1 if which == 1 else 2)]
+    tokens = [["work"], ["other"], ["work", "sub"], ["w2"]][0 if which == 0 else (1 if which == 1 else (2 if which == 2 else 3))]
     status, out, err = _run(APP, tokens)
     return [c[0] for c in STATE["calls"]] == [" ".join(tokens)]
 
@@ -290,6 +321,8 @@ def conditions(tier):
         {"name": "run_result_numstr[100..999]", "fn": run_result_numstr, "timeout": t, "part": {"lo": 100, "hi": 999}, "bounds": "handler result = str(n), 100 <= n <= 999"},
         {"name": "run_result_other", "fn": run_result_other, "timeout": t, "bounds": "None/False/True/''/numeric strings/lists and 9 pinned floats"},
         {"name": "no_other_handler", "fn": no_other_handler, "timeout": t, "bounds": "3 commands x result in -2..2"},
+        {"name": "listener_status", "fn": listener_status, "timeout": t, "bounds": "pre-handle listener that handles the event with status = every int; 4 verbosity switches"},
+        {"name": "listener_status_other", "fn": listener_status_other, "timeout": t, "bounds": "pre-handle listener that handles the event with status None / True / False / 300 / -1 / 255"},
         {"name": "late_listener", "fn": late_listener, "timeout": t, "bounds": "pre-handle listener (passes / handles / raises) registered after a first run, priority -1/0/1"},
     ]
     for kind in range(len(EXC_KINDS)):
